@@ -598,6 +598,10 @@ class Lowering:
                 f_ = None
             if op(f_) == "ext":
                 return f_
+            if op(f_) == "func" and _pure_of_immutables(self.model, f_[1]):
+                # memoising a package function that computes an immutable value from its (hashable) arguments and
+                # nothing else answers what the function answers
+                return f_
             return None
         try:
             v = Lowering(self.model, None, mod).expr(node, {})
@@ -1139,6 +1143,87 @@ def depth_guard(low) -> int:
     return getattr(low, "_nt_depth", 0)
 
 
+def _pure_of_immutables(model: Model, qualname: str) -> bool:
+    """A module-level function that reads nothing but its parameters (and builtins / str methods on them), writes
+    nothing, and returns None, strings, numbers or tuples of those: its value is a function of the argument VALUES,
+    and sharing one result object between callers is harmless."""
+    fi = model.functions.get(qualname)
+    if fi is None or fi.cls is not None or fi.parent is not None or fi.decorators:
+        return False
+    params = {p.name for p in fi.params}
+    local: set = set()
+    for n in ast.walk(fi.node):
+        if isinstance(n, ast.Name) and isinstance(n.ctx, ast.Store):
+            local.add(n.id)
+    import builtins
+
+    for n in ast.walk(fi.node):
+        if isinstance(n, (ast.Global, ast.Nonlocal, ast.Yield, ast.YieldFrom, ast.Await, ast.Lambda, ast.ListComp, ast.DictComp, ast.SetComp, ast.GeneratorExp)):
+            return False
+        if isinstance(n, (ast.Attribute, ast.Subscript)) and isinstance(n.ctx, (ast.Store, ast.Del)):
+            return False
+        if isinstance(n, ast.Name) and isinstance(n.ctx, ast.Load) and n.id not in params and n.id not in local and not hasattr(builtins, n.id):
+            return False
+        if isinstance(n, ast.Call):
+            f = n.func
+            if isinstance(f, ast.Attribute):
+                if f.attr not in ("partition", "rpartition", "split", "rsplit", "find", "index", "startswith", "endswith", "strip", "lstrip", "rstrip", "lower", "upper", "casefold", "removeprefix", "removesuffix", "count", "join", "replace", "isdigit", "isalnum", "encode"):
+                    return False
+            elif not (isinstance(f, ast.Name) and f.id in ("len", "str", "int", "tuple", "bool", "min", "max", "isinstance", "type", "repr", "ord", "chr")):
+                return False
+        if isinstance(n, ast.Return) and n.value is not None:
+            v = n.value
+            elts = v.elts if isinstance(v, ast.Tuple) else [v]
+            for e in elts:
+                if isinstance(e, (ast.List, ast.Dict, ast.Set)):
+                    return False
+    return True
+
+
+def _inline_self_helpers(model: Model, ci, t, depth: int = 0):
+    """``self._helper(a, b)`` inside a property, with ``_helper`` a one-expression (static) method of the class that
+    the rule set does not know: its return expression with the arguments in place - the property table holds terms
+    over ``$self`` only, and once ``$self`` is replaced by a record term the method could no longer be resolved."""
+    if depth > 2:
+        return t
+
+    def f(x):
+        if not (op(x) == "call" and op(x[1]) == "attr" and x[1][1] == ("param", "$self") and isinstance(x[1][2], str)):
+            return x
+        m = model.find_method(ci, x[1][2]) if hasattr(model, "find_method") else None
+        if m is None or m.is_property or m.is_classmethod or any(op(a) == "star" for a in x[2]) or any(k is None for k, _ in x[3]):
+            return x
+        body = [s_ for s_ in m.node.body if not (isinstance(s_, ast.Expr) and isinstance(s_.value, ast.Constant))]
+        if len(body) != 1 or not isinstance(body[0], ast.Return) or body[0].value is None:
+            return x
+        params = list(m.params)
+        env = {}
+        if not m.is_staticmethod and params:
+            env[params[0].name] = ("param", "$self")
+            params = params[1:]
+        pos = [p_ for p_ in params if p_.kind == "pos"]
+        if len(x[2]) > len(pos):
+            return x
+        for p_, a_ in zip(pos, x[2]):
+            env[p_.name] = a_
+        for k_, v_ in x[3]:
+            if m.param(k_) is None:
+                return x
+            env[k_] = v_
+        if any(p_.name not in env and p_.default is None for p_ in params if p_.kind in ("pos", "kwonly")):
+            return x
+        try:
+            low = Lowering(model, m, m.module)
+            for p_ in params:
+                if p_.name not in env and p_.default is not None:
+                    env[p_.name] = low.expr(p_.default, {})
+            return _inline_self_helpers(model, ci, low.expr(body[0].value, env), depth + 1)
+        except Exception:  # noqa: BLE001
+            return x
+
+    return rewrite(t, f)
+
+
 def build_property_table(model: Model) -> dict:
     """name -> term over ('param','$self') for @property methods whose body is one return.
 
@@ -1156,7 +1241,7 @@ def build_property_table(model: Model) -> dict:
             continue
         low = Lowering(model, fi, fi.module)
         env = {fi.params[0].name: ("param", "$self")}
-        table.setdefault(fi.name, set()).add(low.expr(body[0].value, env))
+        table.setdefault(fi.name, set()).add(_inline_self_helpers(model, fi.cls, low.expr(body[0].value, env)))
     # a name that is ALSO a data field / instance attribute of some class of the package (a NamedTuple with a
     # property `uri_prefix` next to Record's field `uri_prefix`) cannot be resolved by name alone
     plain: set = set()
